@@ -20,13 +20,15 @@ def write_csv(directory, symbol, rows, with_adj=True):
     path = os.path.join(directory, '%s.csv' % symbol)
     with open(path, 'w') as f:
         f.write(HEADER if with_adj else HEADER.replace(',Adj Close', ''))
-        for d, o, c, a in rows:
+        for row in rows:
+            d, o, c, a = row[:4]
+            vol = row[4] if len(row) > 4 else 1000
             hi = max([x for x in (o, c) if x is not None] or [1.0]) + 0.5
             lo = min([x for x in (o, c) if x is not None] or [1.0]) - 0.5
             cells = [d.isoformat(), fmt(o), fmt(hi), fmt(lo), fmt(c)]
             if with_adj:
                 cells.append(fmt(a))
-            cells.append('1000')
+            cells.append(str(vol))
             f.write(','.join(cells) + '\n')
     return path
 
